@@ -126,17 +126,24 @@ func runPFaultCase(c *Case, env *Env) *Result {
 				closed = true
 			}
 			wr.OnWrite = func(int, int) { tick() }
-			for _, in := range inputs {
+			// file-backed inputs are loaded afresh for every execution: their
+			// dictionaries are cold, so the merge's reads of them are seam events
+			// (and cancellation points) in every run, not only in the first
+			runSegs := append([]segment.Segment(nil), segs...)
+			for k, in := range inputs {
 				if in.RA != nil {
-					in.RA.OnRead = func(int) { tick() }
+					sched.Hold()
+					fresh, _, ra, pi, err := LoadView(in.Bytes, StoreFile, sched)
+					sched.Release()
+					if pi != nil || err != nil {
+						out.pi, out.err = pi, err
+						return out
+					}
+					ra.OnRead = func(int) { tick() }
+					runSegs[k] = fresh
 				}
 			}
-			_, out.ret, out.pi, out.err = RunMerge(pc.Merge, pc.Mode, segs, drops, wr, closeCh)
-			for _, in := range inputs {
-				if in.RA != nil {
-					in.RA.OnRead = nil
-				}
-			}
+			_, out.ret, out.pi, out.err = RunMerge(pc.Merge, pc.Mode, runSegs, drops, wr, closeCh)
 		} else {
 			wr.OnWrite = func(int, int) { event++ }
 			out.pi = Guard(func() { out.ret, out.err = target.Seg.WriteTo(wr, nil) })
@@ -202,8 +209,13 @@ func runPFaultCase(c *Case, env *Env) *Result {
 
 	// ---- failing writer at every byte offset ----
 	for k := 0; k < L; k++ {
-		o := exec(&WriteFault{After: k}, -1)
-		res.fault("writer-fails-persistently", 1, 1)
+		// every third offset fails with an error that calls itself temporary
+		o := exec(&WriteFault{After: k, Temp: k%3 == 1}, -1)
+		if k%3 == 1 {
+			res.fault("writer-fails-persistently-with-temporary-error", 1, 1)
+		} else {
+			res.fault("writer-fails-persistently", 1, 1)
+		}
 		if o.pi != nil {
 			res.Fail = &Fail{Prop: "C12", Oracle: "persist-fault", Kind: "panic", Site: o.pi.Site, Detail: fmt.Sprintf("%s: writer failing after %d of %d bytes: panic: %s", desc, k, L, o.pi.Msg)}
 			return res
